@@ -19,6 +19,7 @@ import (
 	"time"
 
 	"github.com/olric-data/olric"
+	"github.com/olric-data/olric/config"
 	"github.com/olric-data/olric/internal/cluster/partitions"
 	"github.com/olric-data/olric/verifharness/cluster"
 	"github.com/olric-data/olric/verifharness/trace"
@@ -46,6 +47,7 @@ type world struct {
 	w       *trace.Writer
 	R       int
 	nkeys   int
+	lf100   int // the configured load factor in hundredths
 }
 
 func (w *world) names() map[string]string {
@@ -217,7 +219,7 @@ func (w *world) logStable() error {
 		keys = append(keys, trace.Ev{"k": k, "parts": ps, "owners": os})
 	}
 	w.w.Emit(trace.Ev{"t": "stable", "members": members, "coordinator": coords[0], "coordinators": coords, "R": w.R,
-		"lf100": 125, "views": views, "holds": holds, "keys": keys, "lists": lists})
+		"lf100": w.lf100, "views": views, "holds": holds, "keys": keys, "lists": lists})
 	return nil
 }
 
@@ -316,25 +318,46 @@ func TestRouting(t *testing.T) {
 	// restarts under the old address, of an ordinary member and of the coordinator (always part of the run)
 	seqs = append(seqs, []event{{Ev: "join", M: 2}, {Ev: "join", M: 3}, {Ev: "write"}, {Ev: "restart", M: 2}, {Ev: "write"}, {Ev: "restart", M: 1}, {Ev: "join", M: 4}},
 		[]event{{Ev: "join", M: 2}, {Ev: "write"}, {Ev: "restart", M: 2}, {Ev: "join", M: 3}, {Ev: "leave", M: 1}})
+	// sequences that always run with the members' own timers, whatever their position: the founding coordinator leaves, data is
+	// written, a member joins - whoever is coordinator then has to keep pushing until the emptied previous owners are gone
+	free := map[int]bool{}
+	for _, evs := range [][]event{
+		{{Ev: "join", M: 2}, {Ev: "leave", M: 1}, {Ev: "write"}, {Ev: "join", M: 3}},
+		{{Ev: "join", M: 2}, {Ev: "join", M: 3}, {Ev: "leave", M: 1}, {Ev: "write"}, {Ev: "join", M: 4}},
+	} {
+		free[len(seqs)] = true
+		seqs = append(seqs, evs)
+	}
 	evals, nontriv, unstable := 0, 0, 0
 	var notes []string
 	var samples []any
+	// LF: the configured load factor in hundredths (0 = the default, 1.25); a tighter one must be honoured as well
 	cfgs := []struct {
-		R int
-		P uint64
-	}{{1, 7}, {2, 13}, {3, 7}, {2, 71}}
+		R  int
+		P  uint64
+		LF int
+	}{{1, 7, 0}, {2, 13, 0}, {3, 7, 0}, {2, 71, 110}, {1, 23, 105}}
 	for si, evs := range seqs {
 		cf := cfgs[si%len(cfgs)]
 		// every third sequence runs with the members' own timers (routing-table push every 200 ms, balancer every 100 ms)
 		// instead of pushes and balancer runs triggered by the driver
-		manual := si%3 != 2
-		c, err := cluster.Start(cluster.Options{Replicas: cf.R, Partitions: cf.P, Manual: manual}, 1)
+		manual := si%3 != 2 && !free[si]
+		lf := cf.LF
+		if lf == 0 {
+			lf = 125
+		}
+		c, err := cluster.Start(cluster.Options{Replicas: cf.R, Partitions: cf.P, Manual: manual,
+			Tweak: func(c *config.Config) {
+				if cf.LF != 0 {
+					c.LoadFactor = float64(cf.LF) / 100
+				}
+			}}, 1)
 		if err != nil {
 			t.Fatal(err)
 		}
-		w := &world{c: c, byModel: map[int]*cluster.Member{1: c.Members[0]}, order: []*cluster.Member{c.Members[0]}, w: tw, R: cf.R}
+		w := &world{c: c, byModel: map[int]*cluster.Member{1: c.Members[0]}, order: []*cluster.Member{c.Members[0]}, w: tw, R: cf.R, lf100: lf}
 		var desc []string
-		tw.Emit(trace.Ev{"t": "reset", "seq": si + 1, "cfg": fmt.Sprintf("R=%d P=%d manual=%v", cf.R, cf.P, manual)})
+		tw.Emit(trace.Ev{"t": "reset", "seq": si + 1, "cfg": fmt.Sprintf("R=%d P=%d manual=%v load-factor=%d%%", cf.R, cf.P, manual, lf)})
 		w.write(20)
 		failed := false
 		changes := 0
